@@ -16,7 +16,7 @@ structure Consistent (P : Params) (s : State) : Prop where
   smap_id : ∀ i k, s.smap i = some k → SlotHasId s k i
   dial_id : ∀ g (d : Dial), s.dials g = some d → SlotHasId s d.slot d.id
   tw_slot : ∀ t (w : Tw), s.tws t = some w → ∃ sl, s.slots w.slot = some sl
-  run_ok : ∀ k m, s.run = .have k m → MsgOk s m ∧ SlotHasId s k m.sid
+  run_ok : ∀ k m, (s.run = .have k m ∨ s.run = .blocked k m) → MsgOk s m ∧ SlotHasId s k m.sid
   buf_ok : ∀ k (sl : Slot) m, s.slots k = some sl → sl.buf = some m → MsgOk s m ∧ m.sid = sl.id
   dialled_ok : P.dialsReceivedAddr = true →
     ∀ g (d : Dial) a, s.dials g = some d → d.pc = .dialled a → s.listeners a = some ⟨d.id⟩
@@ -141,13 +141,14 @@ theorem consistent_step (P : Params) (s s' : State) (e : Event) (h : Consistent 
     simp only [step] at hs
     split at hs
     · next k m hrun =>
-      obtain ⟨hm, hsl⟩ := h.run_ok k m hrun
+      obtain ⟨hm, hsl⟩ := h.run_ok k m (Or.inl hrun)
       split at hs
       · next sl hk =>
         have hid : sl.id = m.sid := by obtain ⟨sl', h1, h2⟩ := hsl; rw [hk] at h1; cases h1; exact h2
         obtain ⟨a1, a2, a3, a4, a5, a6, a7, a8, a9, a10, a11, a12⟩ := h
-        split at hs <;> (simp only [Option.some.injEq] at hs; subst hs)
-        · constructor <;> simp only [SlotHasId, MsgOk, upd] <;> try assumption
+        split at hs
+        · simp only [Option.some.injEq] at hs; subst hs
+          constructor <;> simp only [SlotHasId, MsgOk, upd] <;> try assumption
           · intro i hi; have := a1 i hi; grind
           · intro i j hj; have := a6 i j hj; grind [SlotHasId]
           · intro i j hj; have := a7 i j hj; grind [SlotHasId]
@@ -158,10 +159,71 @@ theorem consistent_step (P : Params) (s s' : State) (e : Event) (h : Consistent 
             by_cases hjk : j = k
             · subst hjk; simp at hj; subst hj; simp at hb; subst hb; exact ⟨hm, hid.symm⟩
             · simp [hjk] at hj; exact a11 j sl' m' hj hb
-        · constructor <;> simp only [SlotHasId, MsgOk] <;> try assumption
-          intro _ _ hr; simp at hr
+        · split at hs <;> (simp only [Option.some.injEq] at hs; subst hs)
+          · constructor <;> simp only [SlotHasId, MsgOk] <;> try assumption
+            intro _ _ hr; simp at hr
+          · constructor <;> simp only [SlotHasId, MsgOk] <;> try assumption
+            intro k' m' hr
+            simp at hr
+            obtain ⟨rfl, rfl⟩ := hr
+            exact ⟨hm, hsl⟩
       · simp at hs
     · simp at hs
+  | runUnblock =>
+    simp only [step] at hs
+    split at hs
+    · next k m hrun =>
+      obtain ⟨hm, hsl⟩ := h.run_ok k m (Or.inr hrun)
+      split at hs
+      · next sl hk =>
+        have hid : sl.id = m.sid := by obtain ⟨sl', h1, h2⟩ := hsl; rw [hk] at h1; cases h1; exact h2
+        obtain ⟨a1, a2, a3, a4, a5, a6, a7, a8, a9, a10, a11, a12⟩ := h
+        split at hs
+        · simp only [Option.some.injEq] at hs; subst hs
+          constructor <;> simp only [SlotHasId, MsgOk, upd] <;> try assumption
+          · intro i hi; have := a1 i hi; grind
+          · intro i j hj; have := a6 i j hj; grind [SlotHasId]
+          · intro i j hj; have := a7 i j hj; grind [SlotHasId]
+          · intro g d hd; have := a8 g d hd; grind [SlotHasId]
+          · intro t w hw; have := a9 t w hw; grind
+          · intro _ _ hr; simp at hr
+          · intro j sl' m' hj hb
+            by_cases hjk : j = k
+            · subst hjk; simp at hj; subst hj; simp at hb; subst hb; exact ⟨hm, hid.symm⟩
+            · simp [hjk] at hj; exact a11 j sl' m' hj hb
+        · simp at hs
+      · simp at hs
+    · simp at hs
+  | dialRacy id =>
+    simp only [step] at hs
+    split at hs
+    · simp at hs
+    · simp only [Option.some.injEq] at hs; subst hs
+      have fs : s.slots s.nSlots = none := h.fresh_slots _ (Nat.le_refl _)
+      have fd : s.dials s.nDials = none := h.fresh_dials _ (Nat.le_refl _)
+      obtain ⟨a1, a2, a3, a4, a5, a6, a7, a8, a9, a10, a11, a12⟩ := h
+      constructor <;> simp only [SlotHasId, MsgOk, upd] <;> try assumption
+      · intro i hi; have := a1 i (by omega); grind
+      · intro i hi; have := a3 i (by omega); grind
+      · intro i k hk
+        by_cases hi : i = id
+        · subst hi; simp at hk; subst hk; simp
+        · simp [hi] at hk; have := a6 i k hk; grind [SlotHasId]
+      · intro i k hk; have := a7 i k hk; grind [SlotHasId]
+      · intro g d hd
+        by_cases hg : g = s.nDials
+        · subst hg; simp at hd; subst hd; simp
+        · simp [hg] at hd; have := a8 g d hd; grind [SlotHasId]
+      · intro t w hw; have := a9 t w hw; grind
+      · intro k m hr; have := a10 k m hr; grind [SlotHasId, MsgOk]
+      · intro k sl m hk hb
+        by_cases hkk : k = s.nSlots
+        · subst hkk; simp at hk; subst hk; simp at hb
+        · simp [hkk] at hk; exact a11 k sl m hk hb
+      · intro hp g d a hd hpc
+        by_cases hg : g = s.nDials
+        · subst hg; simp at hd; subst hd; simp at hpc
+        · simp [hg] at hd; exact a12 hp g d a hd hpc
   | dial id =>
     simp only [step, Option.some.injEq] at hs; subst hs
     obtain ⟨c, hsl, f1, f2, f3, f4, f5, f6, f7, f8, f9⟩ := getStream_spec P s id h
